@@ -3,6 +3,7 @@ pub mod maps;
 pub mod modules;
 pub mod natives;
 pub mod sem;
+pub mod serde_rt;
 pub mod stack;
 pub mod stdlib;
 pub mod trace;
@@ -28,6 +29,7 @@ pub fn all() -> Vec<Box<dyn Engine>> {
         Box::new(trace::TraceEngine),
         Box::new(natives::NatEngine),
         Box::new(stdlib::StdEngine),
+        Box::new(serde_rt::SerEngine),
     ]
 }
 
